@@ -1292,9 +1292,10 @@ def tableD1 (stages : List Stage) (rows : List DBase) : Res (List DRow) := runSt
 
 /-! ## one set of filter objects, several tables -/
 
+/-- a table and the stages applied to it by filter objects of its own (`pre`), before the shared filter objects -/
 inductive Table
-  | dense (rows : List DBase)
-  | sparse (rows : List SBase)
+  | dense (pre : List Stage) (rows : List DBase)
+  | sparse (pre : List Stage) (rows : List SBase)
   deriving Repr
 
 inductive TableOut
@@ -1305,8 +1306,8 @@ inductive TableOut
 afterwards.  None of the `*Rows.filter` methods assigns an attribute of `self` (the arguments derived from the
 first row are locals), so the objects are what they were. -/
 def runTable (fs : List Stage) : Table → TableOut × List Stage
-  | .dense rows => (.dense (tableD1 fs rows), fs)
-  | .sparse rows => (.sparse (tableS fs rows), fs)
+  | .dense pre rows => (.dense (tableD1 (pre ++ fs) rows), fs)
+  | .sparse pre rows => (.sparse (tableS (pre ++ fs) rows), fs)
 
 /-- the same filter objects process the tables one after the other -/
 def session : List Stage → List Table → List TableOut
